@@ -79,7 +79,13 @@ func raceRun(en *Env, i int, stats map[string]int) {
 	dir := en.FreshDir()
 	defer en.Drop(dir)
 	u := h.SimpleKeys(nkeys, 6)
-	db, err := kv.Open(cfg.Options(dir))
+	opts := cfg.Options(dir)
+	// every sixth run: the engine's own background-merge goroutine (Options.EnableBackgroundMerge, one attempt
+	// per second while bytes are being written) runs next to the callers
+	bg := i%6 == 5
+	opts.EnableBackgroundMerge = bg
+	t0 := time.Now()
+	db, err := kv.Open(opts)
 	if err != nil {
 		return
 	}
@@ -151,6 +157,21 @@ func raceRun(en *Env, i int, stats map[string]int) {
 				}
 			}
 		}(w)
+	}
+	if bg {
+		// keep writing until the background goroutine has had two ticks
+		wg.Add(1)
+		go func() {
+			defer wg.Done()
+			cr := rand.New(rand.NewSource(int64(i)))
+			for time.Since(t0) < 2200*time.Millisecond {
+				key := u.Key(1 + cr.Intn(nkeys))
+				lg.add("Put", guardName(func() error { return db.Put(key, mkval(cr)) }))
+				lg.add("Get", guardName(func() error { _, err := db.Get(key); return err }))
+				time.Sleep(2 * time.Millisecond)
+			}
+		}()
+		stats["bgmerge_runs"]++
 	}
 	done := make(chan struct{})
 	go func() { wg.Wait(); close(done) }()
